@@ -15,7 +15,12 @@ import math
 import pathlib
 import uuid
 
+import re
+
 import coregen
+import impl
+import universe
+from lib import coq_list, coq_nat, coq_opt
 from universe import HASHABLE_LEAVES, LEAVES, MAP_KINDS, MAP_PY, SEQ_KINDS, SEQ_PY, cname
 
 UTC = datetime.timezone.utc
@@ -153,10 +158,14 @@ def literal_default(rng, t):
     return None
 
 
-def gen_env(rng, ncls=3, cyclic=False, depth=2, bad_defaults=False):
+def gen_env(rng, ncls=3, cyclic=False, depth=2, bad_defaults=False, derive=None):
     """like coregen.gen_env, unions only Optional.  Defaults conform to their annotation unless
-    `bad_defaults` (then some non-Optional fields get `= None`)."""
+    `bad_defaults` (then some non-Optional fields get `= None`).
+    derive: None (every class is written directly, the round-1 stream, same random draws) or a callable
+    flavour -> derivation kind (see DERIVATIONS): the class is then DEFINED by that derivation (round 3)."""
     env = {"module": coregen.new_module_name("c13"), "defs": {}, "bad_defaults": bad_defaults}
+    if derive is not None:
+        env.update({"derive": {}, "required": {}, "pairish": True})
     defs = env["defs"]
     for name, d in ENUMS.items():
         if rng.random() < 0.6:
@@ -175,6 +184,7 @@ def gen_env(rng, ncls=3, cyclic=False, depth=2, bad_defaults=False):
         nf = rng.randint(1 if flavour == "namedtuple" else 0, 4)
         if opts == "slots=True":
             nf = max(nf, 1)
+        kind = derive(flavour) if derive is not None else "direct"
         fields, have_default = [], False
         for fn in rng.sample(FIELD_NAMES, nf):
             t = gen_ty(rng, env, depth, classes=usable, wrap=0.1)
@@ -203,8 +213,15 @@ def gen_env(rng, ncls=3, cyclic=False, depth=2, bad_defaults=False):
                 have_default = True
             if rng.random() < 0.1 and flavour in ("dataclass", "plain"):
                 t = ("final", t)
+            if kind in UNTYPED_KINDS:
+                # collections.namedtuple declares no annotations: typelib reads every field as typing.Any
+                t = ("leaf", "Any")
+                if default is not None:
+                    default = rng.choice(["None", "'ab'", "(1, 2)", "7", "'null'"])
             fields.append((fn, t, default))
         defs[n] = ("class", flavour, opts, fields)
+        if derive is not None:
+            set_derivation(rng, env, n, kind)
     if rng.random() < 0.4 and ncls:
         defs[ncls] = ("alias", ("seq", "KList", "list[{}]", ("name", rng.choice(names))))
     return env
@@ -263,12 +280,15 @@ def gen_value(rng, t, env, mod, depth=3, size=3):
             return gen_value(rng, d[2] if isinstance(d[1], str) else d[1], env, mod, depth, size)
         cls = getattr(mod, cname(n))
         kw = {}
+        req = required_of(env, n)
         for fn, ft, default in d[3]:
             if default is not None and (depth <= 0 or rng.random() < 0.3) and not env.get("bad_defaults"):
                 continue      # (a nonconforming default would make the value invalid)
-            if d[2] == "total=False" and rng.random() < 0.3:
+            if d[1] == "typeddict" and fn not in req and rng.random() < 0.3:
                 continue
             kw[fn] = gen_value(rng, ft, env, mod, depth - 1, size)
+        if env.get("pairish") and d[3] and rng.random() < 0.6:
+            make_pairish(rng, d[3], kw, env, mod, depth, size)
         if d[1] == "typeddict":
             items = list(kw.items())
             rng.shuffle(items)                                     # any key order is a valid TypedDict
@@ -347,7 +367,7 @@ class Validity:
                 ftys = {f: ft for f, ft, _ in fields}
                 if not all(type(key) is str and key in ftys for key in v):
                     return False
-                if self.total and d[2] != "total=False" and set(v) != set(ftys):
+                if self.total and not required_of(self.env, n) <= set(v):
                     return False
                 return all([go(ftys[key], x) for key, x in v.items()])
             if type(v) is not cls:
@@ -443,8 +463,11 @@ def same(a, b) -> bool:
         return len(a) == len(b) and all(any(same(x, y) for y in b) for x in a)
     if dataclasses.is_dataclass(a):
         return all(same(getattr(a, f.name, _MISSING), getattr(b, f.name, _MISSING)) for f in dataclasses.fields(a))
-    if type(a).__module__.startswith("verif_core") and hasattr(a, "__dict__"):
+    if type(a).__module__.startswith("verif_core") and hasattr(a, "__dict__") and not _slot_names(type(a)):
         return list(vars(a)) == list(vars(b)) and all(same(vars(a)[k], vars(b)[k]) for k in vars(a))
+    if type(a).__module__.startswith("verif_core") and _slot_names(type(a)):
+        sa, sb = _state(a), _state(b)                 # a __slots__ class (with or without an instance __dict__)
+        return [k for k, _ in sa] == [k for k, _ in sb] and all(same(x[1], y[1]) for x, y in zip(sa, sb))
     if isinstance(a, float):
         return (a != a and b != b) or (a == b and math.copysign(1, a) == math.copysign(1, b))
     if isinstance(a, decimal.Decimal):
@@ -464,3 +487,478 @@ def same(a, b) -> bool:
 
 
 _MISSING = object()
+
+
+def _slot_names(cls):
+    out = []
+    for k in reversed(cls.__mro__):
+        sl = k.__dict__.get("__slots__", ())
+        out += [x for x in ((sl,) if isinstance(sl, str) else sl) if x not in ("__dict__", "__weakref__")]
+    return out
+
+
+def _state(o):
+    st = [(k, getattr(o, k)) for k in _slot_names(type(o)) if hasattr(o, k)]
+    return st + list(getattr(o, "__dict__", {}).items())
+
+
+# ==================================================================================
+# Round 3: the class-DERIVATION stratum.
+#
+# The core model describes a structured class by (flavour, fields in order, defaults, required keys): it does not
+# care how Python arrived at that class.  The property quantifies over "every supported T": a class that typelib treats
+# as a named tuple / dataclass / TypedDict / attribute class with those fields is the same T for the statement whether
+# it was written directly or DERIVED.  The round-1 generator only ever wrote classes directly
+# (`class N(typing.NamedTuple): a: str`), so every code path that looks at HOW a class came about (own
+# `__annotations__`, `_fields`, `__slots__`, `__required_keys__`, MRO-merged hints) was exercised on one shape only.
+# Here the description of a class stays what it was (the EFFECTIVE fields, in the order typelib reads them) and
+# `env["derive"][n]` says by which derivation the Python class N<n> is defined; `derive_source` rewrites the class
+# block of `universe.module_source` accordingly (the helper base classes are N<n>_b / N<n>_c / N<n>_m; values are
+# always instances of exactly N<n>).
+#
+# Inside the quantifier (model can express them: same classdef) -> correspondence AND oracle:
+#   named tuple   nt-sub            class N(B): __slots__ = ()            B a typing.NamedTuple with the fields
+#                 nt-sub2           two such levels
+#                 nt-coll           collections.namedtuple('N', names, defaults=...)       (every field reads as Any)
+#                 nt-coll-sub       class N(collections.namedtuple(...)): __slots__ = ()    (every field reads as Any)
+#                 nt-coll-ann       class N(collections.namedtuple(...)): a: str; b: int    (the typed idiom before 3.6)
+#   dataclass     dc-sub-plain      undecorated subclass of a dataclass, no new field
+#                 dc-sub-slots      the same with __slots__ = ()
+#                 dc-sub-dec        decorated subclass, no new field
+#                 dc-sub-add        decorated subclass adding the fields k..
+#                 dc-sub-override   decorated subclass re-declaring one field (the base says typing.Any)
+#   TypedDict     td-sub-empty      class N(B): pass
+#                 td-sub-add        subclass adding keys (same totality)
+#                 td-mixed          subclass of the other totality: required keys = the total part  (`env["required"]`)
+#                 td-multi          two bases (each with its own totality)
+#                 td-sub-override   subclass re-declaring one key
+#   plain class   pl-sub-empty      subclass inheriting the annotations and __init__
+#                 pl-sub-add        subclass adding annotated attributes (own __init__)
+#                 pl-sub-override   subclass re-annotating one attribute (base says typing.Any)
+#                 pl-slots          annotated __slots__ class (DESIGN 3.1 lists it; never generated before)
+#                 pl-slots-sub      subclass with __slots__ = () of one
+#                 pl-slots-sub-dict subclass WITHOUT __slots__ of one (instances have an empty __dict__)
+#                 pl-slots-add      subclass adding slots
+#   every flavour direct            written directly (control; with the adversarial first-field values of this stratum)
+#
+# Decided OUTSIDE the quantifier (not generated, not held to the statement):
+#   * a NamedTuple subclass that declares NEW annotations (`class N(B): c: int = 5`): `c` is a class attribute, not a
+#     tuple field; no instance "has" it, so there is no valid v "made of exactly the annotated classes".
+#   * an undecorated dataclass subclass / a dataclass derived from an annotated plain class, where an annotation is
+#     not a dataclass field: same reason (typelib reads the hint, `dataclasses.fields` does not list it).
+#   * instances of the BASE given to the derived annotation or the reverse: not "exactly the annotated class".
+#   * collections.namedtuple subclass annotating only SOME fields: typelib reads the annotated ones only; the
+#     rest cannot be supplied to the constructor -- an unsupported T (C15's subject), not a pass-through case.
+#   * Generic / multiple-inheritance dataclasses, InitVar, field(init=False), __post_init__: outside U (notes, round 1).
+# ==================================================================================
+
+DERIVATIONS = {
+    "namedtuple": ["direct", "nt-sub", "nt-sub2", "nt-coll", "nt-coll-sub", "nt-coll-ann"],
+    "dataclass": ["direct", "dc-sub-plain", "dc-sub-slots", "dc-sub-dec", "dc-sub-add", "dc-sub-override"],
+    "typeddict": ["direct", "td-sub-empty", "td-sub-add", "td-mixed", "td-multi", "td-sub-override"],
+    "plain": ["direct", "pl-sub-empty", "pl-sub-add", "pl-sub-override", "pl-slots", "pl-slots-sub",
+              "pl-slots-sub-dict", "pl-slots-add"],
+}
+UNTYPED_KINDS = ("nt-coll", "nt-coll-sub")
+ALL_KINDS = [(fl, k) for fl, ks in DERIVATIONS.items() for k in ks]
+
+
+def kind_cycle(start=0):
+    """flavour -> next derivation kind of that flavour, round robin (every kind comes up within a few classes)"""
+    pos = {fl: start for fl in DERIVATIONS}
+
+    def nxt(flavour):
+        ks = DERIVATIONS[flavour]
+        pos[flavour] += 1
+        return ks[pos[flavour] % len(ks)]
+    return nxt
+
+
+def set_derivation(rng, env, n, kind):
+    """record the derivation of class n: split point / overridden field / totalities, and the required keys"""
+    d = env["defs"][n]
+    fields = d[3]
+    nf = len(fields)
+    spec = {"kind": kind}
+    if kind.endswith("-add") or kind in ("td-mixed", "td-multi"):
+        spec["k"] = rng.randint(1, nf - 1) if nf >= 2 else rng.randint(0, nf)
+    if kind.endswith("-override"):
+        if nf == 0:
+            spec["kind"] = kind = {"dc-sub-override": "dc-sub-dec", "td-sub-override": "td-sub-empty",
+                                   "pl-sub-override": "pl-sub-empty"}[kind]
+        else:
+            spec["j"] = rng.randrange(nf)
+    names = [f for f, _, _ in fields]
+    if kind == "td-mixed":
+        base_total = rng.random() < 0.5
+        spec["totals"] = (base_total, not base_total)
+    if kind == "td-multi":
+        spec["totals"] = (rng.random() < 0.5, rng.random() < 0.5)
+    if "totals" in spec:
+        k = spec["k"]
+        env["required"][n] = (names[:k] if spec["totals"][0] else []) + (names[k:] if spec["totals"][1] else [])
+    env["derive"][n] = spec
+
+
+def required_of(env, n) -> set:
+    """names of the keys every instance of TypedDict n must have"""
+    d = env["defs"][n]
+    if d[1] != "typeddict":
+        return set()
+    if n in env.get("required", {}):
+        return set(env["required"][n])
+    return set() if d[2] == "total=False" else {f for f, _, _ in d[3]}
+
+
+# ---------------------------------------------------------------------------------- source
+
+def _block(lines, n):
+    name = cname(n)
+    for i, ln in enumerate(lines):
+        if re.match(rf"class {name}[(:]", ln):
+            start = i - 1 if i > 0 and lines[i - 1].startswith("@dataclasses.dataclass(") else i
+            j = i + 1
+            while j < len(lines) and lines[j].startswith("    "):
+                j += 1
+            return start, i, j
+    raise KeyError(name)
+
+
+def _fld(fname, ann, default):
+    return f"    {fname}: {ann}" + (f" = {default}" if default is not None else "") + "\n"
+
+
+def _plain(name, base, own, inherited, allf, slots=None, init=True):
+    """source of an attribute class: `own` fields annotated here, `inherited` come from `base`.
+    Fields are (fname, annotation source, default source | None)."""
+    out = [f"class {name}{'(' + base + ')' if base else ''}:\n"]
+    if slots is not None:
+        out.append(f"    __slots__ = {tuple(slots)!r}\n")
+    out += [f"    {f}: {a}\n" for f, a, _ in own]
+    if init:
+        params = ", ".join(f"{f}: {a}" + (f" = {dv}" if dv is not None else "") for f, a, dv in inherited + own)
+        out.append(f"    def __init__(self{', ' if params else ''}{params}):\n")
+        body = []
+        if base and inherited:
+            body.append(f"        super().__init__({', '.join(f for f, _, _ in inherited)})\n")
+        body += [f"        self.{f} = {f}\n" for f, _, _ in own]
+        out += body or ["        pass\n"]
+    if not base:
+        names = tuple(f for f, _, _ in allf)
+        out.append(f"    def _verif_state(self):\n        return [(f, getattr(self, f)) for f in {names!r} if hasattr(self, f)]\n"
+                   "    def __eq__(self, o):\n        return type(o) is type(self) and o._verif_state() == self._verif_state()\n"
+                   "    __hash__ = None\n"
+                   "    def __repr__(self):\n        return type(self).__name__ + '(' + repr(dict(self._verif_state())) + ')'\n")
+    if len(out) == 1:
+        out.append("    pass\n")
+    return "".join(out)
+
+
+def derive_source(src, env):
+    """rewrite the class blocks written by universe.module_source according to env['derive']"""
+    derive = env.get("derive") or {}
+    lines = src.splitlines(keepends=True)
+    for n, spec in derive.items():
+        kind = spec["kind"]
+        if kind == "direct":
+            continue
+        d = env["defs"][n]
+        flavour, opts, fields = d[1], d[2], d[3]
+        nf = len(fields)
+        start, hdr, end = _block(lines, n)
+        body = lines[hdr + 1:end]
+        N, B, C, M = cname(n), cname(n) + "_b", cname(n) + "_c", cname(n) + "_m"
+        # the annotation sources as module_source wrote them (quoted where the target is defined later)
+        anns = []
+        if flavour == "plain":
+            flines, rest = body[:nf], [ln for ln in body if ln.startswith("    def __call__") or ln == "        return None\n"]
+        elif nf:
+            flines, rest = body[:nf], body[nf:]
+        else:
+            assert body[0] == "    pass\n", body
+            flines, rest = [], body[1:]
+        for (f, _, dv), ln in zip(fields, flines):
+            pre, suf = f"    {f}: ", ((" = " + dv) if dv is not None and flavour != "plain" else "") + "\n"
+            assert ln.startswith(pre) and ln.endswith(suf), (ln, pre, suf)
+            anns.append(ln[len(pre):len(ln) - len(suf)])
+        fs = [(f, a, dv) for (f, _, dv), a in zip(fields, anns)]
+        k, j = spec.get("k", 0), spec.get("j")
+        ovr = [(f, "typing.Any" if i == j else a, dv) for i, (f, a, dv) in enumerate(fs)]
+        body_of = lambda ff: "".join(_fld(*x) for x in ff) or "    pass\n"
+        call = "".join(rest)
+        if flavour == "namedtuple":
+            names = [f for f, _, _ in fs]
+            dfl = [dv for _, _, dv in fs if dv is not None]
+            nt = lambda nm: f"collections.namedtuple({nm!r}, {names!r}, defaults=[{', '.join(dfl)}])"
+            meth = "    def label(self):\n        return len(self)\n"
+            if kind == "nt-sub":
+                new = f"class {B}(typing.NamedTuple):\n{body_of(fs)}class {N}({B}):\n    __slots__ = ()\n{meth}"
+            elif kind == "nt-sub2":
+                new = (f"class {B}(typing.NamedTuple):\n{body_of(fs)}class {M}({B}):\n    __slots__ = ()\n"
+                       f"class {N}({M}):\n    __slots__ = ()\n{meth}")
+            elif kind == "nt-coll":
+                new = f"{N} = {nt(N)}\n"
+            elif kind == "nt-coll-sub":
+                new = f"class {N}({nt(B)}):\n    __slots__ = ()\n{meth}"
+            elif kind == "nt-coll-ann":
+                new = f"class {N}({nt(B)}):\n    __slots__ = ()\n" + "".join(_fld(f, a, None) for f, a, _ in fs) + meth
+            else:
+                raise ValueError(kind)
+        elif flavour == "dataclass":
+            dec = f"@dataclasses.dataclass({opts})\n"
+            if kind == "dc-sub-plain":
+                new = f"{dec}class {B}:\n{body_of(fs)}class {N}({B}):\n    pass\n{call}"
+            elif kind == "dc-sub-slots":
+                new = f"{dec}class {B}:\n{body_of(fs)}class {N}({B}):\n    __slots__ = ()\n{call}"
+            elif kind == "dc-sub-dec":
+                new = f"{dec}class {B}:\n{body_of(fs)}{dec}class {N}({B}):\n    pass\n{call}"
+            elif kind == "dc-sub-add":
+                new = f"{dec}class {B}:\n{body_of(fs[:k])}{dec}class {N}({B}):\n{body_of(fs[k:])}{call}"
+            elif kind == "dc-sub-override":
+                new = f"{dec}class {B}:\n{body_of(ovr)}{dec}class {N}({B}):\n{body_of([fs[j]])}{call}"
+            else:
+                raise ValueError(kind)
+        elif flavour == "typeddict":
+            tot = lambda total: "" if total else ", total=False"
+            own = tot(opts != "total=False")
+            if kind == "td-sub-empty":
+                new = f"class {B}(typing.TypedDict{own}):\n{body_of(fs)}class {N}({B}):\n    pass\n"
+            elif kind == "td-sub-add":
+                new = f"class {B}(typing.TypedDict{own}):\n{body_of(fs[:k])}class {N}({B}{own}):\n{body_of(fs[k:])}"
+            elif kind == "td-mixed":
+                t1, t2 = spec["totals"]
+                new = f"class {B}(typing.TypedDict{tot(t1)}):\n{body_of(fs[:k])}class {N}({B}{tot(t2)}):\n{body_of(fs[k:])}"
+            elif kind == "td-multi":
+                t1, t2 = spec["totals"]
+                new = (f"class {B}(typing.TypedDict{tot(t1)}):\n{body_of(fs[:k])}"
+                       f"class {C}(typing.TypedDict{tot(t2)}):\n{body_of(fs[k:])}class {N}({B}, {C}):\n    pass\n")
+            elif kind == "td-sub-override":
+                new = f"class {B}(typing.TypedDict{own}):\n{body_of(ovr)}class {N}({B}{own}):\n{body_of([fs[j]])}"
+            else:
+                raise ValueError(kind)
+        else:
+            names = [f for f, _, _ in fs]
+            if kind == "pl-sub-empty":
+                new = _plain(B, None, fs, [], fs) + _plain(N, B, [], fs, fs, init=False)
+            elif kind == "pl-sub-add":
+                new = _plain(B, None, fs[:k], [], fs) + _plain(N, B, fs[k:], fs[:k], fs)
+            elif kind == "pl-sub-override":
+                new = _plain(B, None, ovr, [], fs) + _plain(N, B, [fs[j]], [], fs, init=False)
+            elif kind == "pl-slots":
+                new = _plain(N, None, fs, [], fs, slots=names)
+            elif kind == "pl-slots-sub":
+                new = _plain(B, None, fs, [], fs, slots=names) + _plain(N, B, [], fs, fs, slots=(), init=False)
+            elif kind == "pl-slots-sub-dict":
+                new = _plain(B, None, fs, [], fs, slots=names) + _plain(N, B, [], fs, fs, init=False)
+            elif kind == "pl-slots-add":
+                new = _plain(B, None, fs[:k], [], fs, slots=names[:k]) + _plain(N, B, fs[k:], fs[:k], fs, slots=names[k:])
+            else:
+                raise ValueError(kind)
+            if call:                  # (universe gives every third class callable instances)
+                new += f"{N}.__call__ = lambda self: None\n"
+        lines[start:end] = [new]
+        lines = "".join(lines).splitlines(keepends=True)
+    return "".join(lines)
+
+
+def materialise(env, roots):
+    """universe.materialise with the class derivations applied to the source -> (module, [python types], source)"""
+    import typing
+    universe.canonicalise_unions(env, roots)
+    for f in getattr(typing, "_cleanups", ()):
+        f()
+    src = derive_source(universe.module_source(env, roots), env)
+    mod = impl.new_module(env["module"], src)
+    tys = [eval(universe.src_ty(r, env), mod.__dict__) for r in roots]
+    return mod, tys, src
+
+
+class Registry13(universe.Registry):
+    """the shared encoder; `crequired` of a TypedDict of mixed totality comes from env['required']"""
+
+    def emit_env(self) -> str:
+        if not self.env.get("required"):
+            return super().emit_env()
+        arms = []
+        for n, d in self.env["defs"].items():
+            if d[0] == "class":
+                fl = {"dataclass": "FDataclass", "namedtuple": "FNamedTuple", "typeddict": "FTypedDict",
+                      "plain": "FPlain"}[d[1]]
+                fs = []
+                for fname, t, default in d[3]:
+                    dv = self.enc(self.default_value(n, fname)) if default is not None else None
+                    fs.append("{| fname := %s; fty := %s; fdefault := %s |}" % (
+                        coq_nat(self.fid(fname)), self.emit_ty(t), coq_opt(dv, "pv")))
+                req = [coq_nat(self.fid(f)) for f, _, _ in d[3] if f in required_of(self.env, n)]
+                arms.append(f"| {n} => Some (NClass {{| cflavour := {fl}; cfields := {coq_list(fs, 'field')}; "
+                            f"crequired := {coq_list(req, 'nat')} |}})")
+            elif d[0] == "alias":
+                arms.append(f"| {n} => Some (NType {self.emit_ty(d[2] if isinstance(d[1], str) else d[1])})")
+        return "(fun n : nat => match n with " + " ".join(arms) + " | _ => None end)"
+
+
+# ---------------------------------------------------------------------------------- adversarial first fields
+
+NOTHING = object()
+ANY_PAIRISH = ["ab", ("a", 1), ["b", 2], [1, 2], {"a": 1, "b": 2}, b"xy", ("ab", "ba"), [("a", 1), ("b", 2)], "[]", "ba"]
+
+
+def pairish_value(rng, t, env, mod, names, depth, size):
+    """a valid value of t that is a collection of exactly two members (what `_is_iterable_of_pairs` peeks for), or NOTHING"""
+    k = t[0]
+    if k == "leaf":
+        key = t[1]
+        two = ["".join(p) for p in itertools.permutations([x for x in names if len(x) == 1], 2)][:6]
+        if key == "str":
+            return rng.choice(["ab", "xy", "[]", "{}", "-0", "ba"] + two)
+        if key == "bytes":
+            return rng.choice([b"ab", b"[]", b"xy"])
+        if key == "Any":
+            return copy.deepcopy(rng.choice(ANY_PAIRISH + two + [(f, 5) for f in names[:2]]))
+        if key == "list":
+            return copy.deepcopy(rng.choice([[1, 2], ["ab", "cd"], [("a", 1), ("b", 2)]]))
+        if key == "dict":
+            return {"a": 1, "b": 2}
+        if key in LEAF_VALUES:
+            return NOTHING
+        pool = [v for v in leaf_pool(key, env, mod) if isinstance(v, (str, bytes)) and len(v) == 2]
+        return rng.choice(pool) if pool else NOTHING
+    if k in ("seq", "map") and depth <= 0:
+        return NOTHING                                        # (cyclic environments: the value has to end)
+    if k == "seq":
+        vals = [gen_value(rng, t[3], env, mod, depth - 1, size) for _ in range(2)]
+        if t[1] in ("KSet", "KFrozenset"):
+            vals = coregen._dedupe_eq(vals)
+        return SEQ_PY[t[1]](vals)
+    if k == "map":
+        pairs = []
+        for _ in range(6):
+            kk = gen_value(rng, t[3], env, mod, depth - 1, size)
+            if len(pairs) < 2 and not any(kk == p[0] for p in pairs):
+                pairs.append((kk, gen_value(rng, t[4], env, mod, depth - 1, size)))
+        return MAP_PY[t[1]](pairs)
+    if k == "union":
+        ms = [m for m in t[2] if m != ("none",)]
+        return pairish_value(rng, ms[0], env, mod, names, depth, size) if ms else NOTHING
+    if k in ("newtype", "alias"):
+        return pairish_value(rng, t[2], env, mod, names, depth, size)
+    if k in ("final", "classvar"):
+        return pairish_value(rng, t[1], env, mod, names, depth, size)
+    if k in ("name", "ref", "aliasstr"):
+        d = env["defs"][t[1] if k != "aliasstr" else t[2]]
+        if d[0] == "alias":
+            return pairish_value(rng, d[2] if isinstance(d[1], str) else d[1], env, mod, names, depth, size)
+    return NOTHING
+
+
+def make_pairish(rng, fields, kw, env, mod, depth, size):
+    """put a 2-element member into the first field (and, half of the time, 2-character text into later str / Any
+    fields: when those characters spell field names the misreading is SILENT, e.g. N('ab', 'ba') -> N(a='b', b='a'))"""
+    names = [f for f, _, _ in fields]
+    for i, (fn, ft, _) in enumerate(fields):
+        if fn not in kw:
+            if i == 0:
+                return
+            continue
+        if i == 0 or (rng.random() < 0.5 and ft in (("leaf", "str"), ("leaf", "Any"))):
+            v = pairish_value(rng, ft, env, mod, names, depth, size)
+            if v is not NOTHING:
+                kw[fn] = v
+
+
+# ---------------------------------------------------------------------------------- the catalogue (exhaustive, no rng)
+
+class O:
+    """an instance of class n of the catalogue environment, fields given positionally"""
+
+    def __init__(self, n, *args):
+        self.n, self.args = n, args
+
+
+_S, _I, _A, _B = ("leaf", "str"), ("leaf", "int"), ("leaf", "Any"), ("leaf", "bytes")
+_II = ("tuple", "tuple[{}]", [_I, _I])
+_LS = ("seq", "KList", "list[{}]", _S)
+_OS = ("union", "Optional", [_S, ("none",)])
+CAT_CLASSES = [                                       # first fields of every family the pairs detection can peek at
+    [("a", _S, None), ("b", _I, "3")],
+    [("a", _S, None), ("b", _S, None)],
+    [("x", _II, None), ("name", _S, None)],
+    [("items", _LS, None), ("val", _OS, "None")],
+    [("c", _B, None), ("b", _S, None), ("a", _I, "0")],
+    [("a", _A, None), ("b", _A, None)],
+    [("kids", ("seq", "KList", "list[{}]", ("name", 0)), None), ("name", _S, None)],
+]
+CAT_ROOTS = [("name", i) for i in range(7)] + [
+    ("seq", "KList", "list[{}]", ("name", 0)),
+    ("map", "KDict", "dict[{}, {}]", _S, ("name", 1)),
+    ("tuple", "tuple[{}]", [("name", 0), ("name", 1)]),
+    ("union", "Optional", [("name", 1), ("none",)]),
+]
+CAT_VALUES = {
+    0: [O(0, "ab", 1), O(0, "abc", 1), O(0, "[]", 0), O(0, "1", 2), O(0, "null", 3), O(0, "ba")],
+    1: [O(1, "ab", "ba"), O(1, "ba", "ab"), O(1, "aX", "bY"), O(1, "ab", "cd"), O(1, "abc", "ab"), O(1, "{}", "[]")],
+    2: [O(2, (1, 2), "r"), O(2, (0, 0), "ab")],
+    3: [O(3, ["ab", "cd"], None), O(3, ["a", "b"], "ab"), O(3, ["ab"], "x"), O(3, []), O(3, ["ab", "cd", "ef"], "null")],
+    4: [O(4, b"ab", "x", 1), O(4, b"[]", "ab"), O(4, b"a", "b", 2)],
+    5: [O(5, "ab", 1), O(5, ("a", 1), ("b", 2)), O(5, ["b", 2], ["a", 1]), O(5, [1, 2], 3), O(5, {"a": 1, "b": 2}, None),
+        O(5, ("ab", "ba"), "x"), O(5, [("a", 1), ("b", 2)], 0), O(5, 5, "ab")],
+    6: [O(6, [O(0, "ab", 1), O(0, "cd", 2)], "n"), O(6, [O(0, "ab", 1)], "ab"), O(6, [], "x")],
+    7: [[O(0, "xy", 7), O(0, "abc", 8)], [O(0, "ab", 1), O(0, "cd", 2)]],
+    8: [{"k": O(1, "ab", "ba")}],
+    9: [(O(0, "ab", 1), O(1, "ab", "cd"))],
+    10: [O(1, "ab", "ba"), None],
+}
+
+
+def catalogue_env(flavour, kind):
+    """the environment of one derivation kind: seven small classes of that flavour, all defined by that derivation"""
+    env = {"module": coregen.new_module_name("c13"), "defs": {}, "bad_defaults": False,
+           "derive": {}, "required": {}, "catalogue": (flavour, kind)}
+    opts = "slots=True" if kind == "dc-sub-slots" else ""
+    for n, fields in enumerate(CAT_CLASSES):
+        fs = []
+        for f, t, dv in fields:
+            if kind in UNTYPED_KINDS:
+                t = _A
+            fs.append((f, t, None if flavour == "typeddict" else dv))
+        env["defs"][n] = ("class", flavour, opts, fs)
+        # deterministic parameters: the first field stays in the base / is the overridden one on even classes
+        rng = _Fixed(k=1, j=(0 if n % 2 == 0 else len(fs) - 1), coin=(n % 2 == 0))
+        set_derivation(rng, env, n, kind)
+    return env
+
+
+class _Fixed:
+    """stands in for the rng of set_derivation: fixed split point, overridden field and totalities"""
+
+    def __init__(self, k, j, coin):
+        self.k, self.j, self.coin = k, j, coin
+
+    def randint(self, a, b):
+        return min(max(self.k, a), b)
+
+    def randrange(self, n):
+        return min(self.j, n - 1)
+
+    def random(self):
+        self.coin = not self.coin
+        return 0.0 if not self.coin else 1.0
+
+
+def realise(spec, env, mod, flip=False):
+    """the Python value of a catalogue spec (TypedDict instances in declaration order, or reversed with `flip`)"""
+    go = lambda s: realise(s, env, mod, flip)
+    if isinstance(spec, O):
+        d = env["defs"][spec.n]
+        kw = {f: go(a) for (f, _, _), a in zip(d[3], spec.args)}
+        if d[1] == "typeddict":
+            for (f, _, _), (_, _, dv) in zip(d[3], CAT_CLASSES[spec.n]):
+                if f not in kw and f in required_of(env, spec.n):
+                    kw[f] = eval(dv)                                  # a TypedDict has no defaults
+            return dict(reversed(list(kw.items()))) if flip else kw
+        return getattr(mod, cname(spec.n))(**kw)
+    if type(spec) in (list, tuple):
+        return type(spec)(go(x) for x in spec)
+    if type(spec) is dict:
+        return {k: go(v) for k, v in spec.items()}
+    return copy.deepcopy(spec)
